@@ -23,7 +23,9 @@ Record InvB (s : cst) (w : world) : Prop := {
   b_eof_out : piped_out w = true -> oref s = false -> wr (pout w) = false /\ buf (pout w) = [];
   b_eof_err : piped_err w = true -> eref s = false -> wr (perr w) = false /\ buf (perr w) = [];
   b_dead : alive w = false -> rd (pin w) = false /\ wr (pout w) = false /\ wr (perr w) = false /\ prog w = [];
-  b_limit : forall l, limit s = Some l -> (total s <= l)%N
+  b_limit : forall l, limit s = Some l -> (total s <= l)%N;
+  b_in_empty : c_in (cm s) = false -> c_input (cm s) = [];
+  b_ceof : piped_in w = true -> child_eof w = true -> buf (pin w) = [] /\ wr (pin w) = false
 }.
 
 (* ---------- ghost part: nothing lost, duplicated or reordered ---------- *)
@@ -113,11 +115,11 @@ Qed.
 (* ---------- invariance under "only the clock moved" ---------- *)
 
 Lemma InvB_set_now s w t : InvB s w -> InvB s (set_now w t).
-Proof. intros [? ? ? ? ? ? ? ? ? ? ? ? ? ? ?]. constructor; cbn; auto. Qed.
+Proof. intros [? ? ? ? ? ? ? ? ? ? ? ? ? ? ? ? ?]. constructor; cbn; auto. Qed.
 
 Lemma InvB_data s s' w : data s' = data s -> InvB s w -> InvB s' w.
 Proof.
-  intros Hd [? ? ? ? ? ? ? ? ? ? ? ? ? ? Hl].
+  intros Hd [? ? ? ? ? ? ? ? ? ? ? ? ? ? Hl ? ?].
   destruct (data_fields _ _ Hd) as [H1 [H2 [H3 [H4 [H5 [H6 [H7 H8]]]]]]].
   constructor; rewrite ?H1, ?H2, ?H3; auto.
   intros l Hs. unfold total. rewrite H4, H5. apply Hl. rewrite <- H6. exact Hs.
@@ -141,7 +143,7 @@ Proof. rewrite firstn_length. lia. Qed.
 
 Lemma child_step_InvB s w k w' : InvB s w -> child_step w k = CStep w' -> InvB s w'.
 Proof.
-  intros [B1 B2 B3 B4 B5 B6 B7 B8 B9 B10 B11 B12 B13 B14 B15] H. unfold child_step in H.
+  intros [B1 B2 B3 B4 B5 B6 B7 B8 B9 B10 B11 B12 B13 B14 B15 B16 B17] H. unfold child_step in H.
   destruct (alive w) eqn:A; cbn [negb] in H; [|discriminate].
   destruct (prog w) as [|op r] eqn:P.
   { injection H as <-. constructor; wsimpl; auto.
@@ -157,6 +159,7 @@ Proof.
     + injection H as <-. constructor; wsimpl; auto.
       * apply pipe_ok_pop. exact B6.
       * intros Ha; congruence.
+      * intros Hp He. destruct (B17 Hp He) as [Hx _]. congruence.
   - destruct bytes as [|b0 bytes]. { injection H as <-. constructor; wsimpl; auto. intros Ha; congruence. }
     remember (b0 :: bytes) as bs eqn:Hbs.
     destruct st; cbn [negb] in H.
@@ -263,7 +266,7 @@ Lemma InvC_set_now g t : InvC g -> InvC (with_w g (set_now (gw g) t)).
 Proof. intros [C1 C2 C3 C4 C5]. constructor; cbn [with_w gw gl gdout gderr ginput0]; wsimpl; auto. Qed.
 
 Lemma InvB_set_prog s w r : alive w = true -> InvB s w -> InvB s (set_prog w r).
-Proof. intros A [? ? ? ? ? ? ? ? ? ? ? ? ? ? ?]. constructor; wsimpl; auto. intros H; congruence. Qed.
+Proof. intros A [? ? ? ? ? ? ? ? ? ? ? ? ? ? ? ? ?]. constructor; wsimpl; auto. intros H; congruence. Qed.
 
 Lemma InvC_set_prog g r t : InvC g -> InvC (with_w g (set_now (set_prog (gw g) r) t)).
 Proof. intros [C1 C2 C3 C4 C5]. constructor; cbn [with_w gw gl gdout gderr ginput0]; wsimpl; auto. Qed.
@@ -314,7 +317,7 @@ Proof.
   pose proof (start_fields (cm (gl g)) lim tl) as Hf. pose proof (start_J (cm (gl g)) lim tl) as Hj.
   pose proof (start_ready (cm (gl g)) lim tl (gw g)) as Hr. rewrite E in Hf, Hj, Hr. cbn [fst snd] in Hf, Hj, Hr.
   destruct Hf as [F1 [F2 [F3 [F4 [F5 F6]]]]].
-  destruct HB as [B1 B2 B3 B4 B5 B6 B7 B8 B9 B10 B11 B12 B13 B14 B15].
+  destruct HB as [B1 B2 B3 B4 B5 B6 B7 B8 B9 B10 B11 B12 B13 B14 B15 B16 B17].
   destruct HC as [C1 C2 C3 C4 C5].
   constructor; cbn [gl ga gw gdout gderr ginput0]; auto.
   - constructor; rewrite ?F1, ?F2, ?F3; auto.
@@ -338,7 +341,7 @@ Proof.
 Qed.
 
 Lemma ret_inv g w e : Inv g -> gw g = w ->
-  Inv (with_l g (fst (ret (gl g) e)) (snd (ret (gl g) e)) w).
+  Inv (with_l g (fst (ret (gl g) (Some e))) (snd (ret (gl g) (Some e))) w).
 Proof.
   intros [HJ HR HB HC] <-. constructor; cbn [with_l gl ga gw gdout gderr ginput0].
   - apply ret_spec.
@@ -351,7 +354,7 @@ Lemma InvB_fields s s' w :
   cm s' = cm s -> oref s' = oref s -> eref s' = eref s -> outv s' = outv s -> errv s' = errv s -> limit s' = limit s ->
   InvB s w -> InvB s' w.
 Proof.
-  intros H1 H2 H3 H4 H5 H6 [? ? ? ? ? ? ? ? ? ? ? ? ? ? Hl].
+  intros H1 H2 H3 H4 H5 H6 [? ? ? ? ? ? ? ? ? ? ? ? ? ? Hl ? ?].
   constructor; rewrite ?H1, ?H2, ?H3; auto.
   intros l Hs. unfold total. rewrite H4, H5. apply Hl. rewrite <- H6. exact Hs.
 Qed.
@@ -450,17 +453,17 @@ Proof.
           pin w' = pin w /\ pout w' = pout w /\ perr w' = perr w /\
           piped_in w' = piped_in w /\ piped_out w' = piped_out w /\ piped_err w' = piped_err w /\
           wrote_out w' = wrote_out w /\ wrote_err w' = wrote_err w /\ child_got w' = child_got w /\
-          prog w' = prog w /\ alive w' = alive w) as [cnt [ri' [ro' [re' [-> [Hrev Hw]]]]]].
+          prog w' = prog w /\ alive w' = alive w /\ child_eof w' = child_eof w) as [cnt [ri' [ro' [re' [-> [Hrev Hw]]]]]].
   { destruct ((nz ri + nz ro + nz re =? 0)%N).
     - destruct (tmo <? 0)%Z; [discriminate|]. injection Hx as <- <-.
       eexists. eexists. eexists. eexists. split; [reflexivity|]. split; [right; auto|]. cbn. repeat split; reflexivity.
     - injection Hx as <- <-. eexists. eexists. eexists. eexists. split; [reflexivity|]. split; [left; auto|]. repeat split; reflexivity. }
-  destruct Hw as [P1 [P2 [P3 [Q1 [Q2 [Q3 [W1 [W2 [W3 [W4 W5]]]]]]]]]].
+  destruct Hw as [P1 [P2 [P3 [Q1 [Q2 [Q3 [W1 [W2 [W3 [W4 [W5 W6]]]]]]]]]]].
   pose proof (step_poll_data s fi fo fe tmo cnt ri' ro' re' HJ) as Hd.
   destruct (data_fields _ _ Hd) as [D1 [D2 [D3 [D4 [D5 [D6 [D7 D8]]]]]]].
   assert (InvB s w') as HB'.
-  { destruct HB as [B1 B2 B3 B4 B5 B6 B7 B8 B9 B10 B11 B12 B13 B14 B15].
-    constructor; rewrite ?P1, ?P2, ?P3, ?Q1, ?Q2, ?Q3, ?W4, ?W5; auto. }
+  { destruct HB as [B1 B2 B3 B4 B5 B6 B7 B8 B9 B10 B11 B12 B13 B14 B15 B16 B17].
+    constructor; rewrite ?P1, ?P2, ?P3, ?Q1, ?Q2, ?Q3, ?W4, ?W5, ?W6; auto. }
   constructor; cbn [with_l gl ga gw].
   - eapply step_J. exact HJ.
   - apply (step_poll_ready s fi fo fe tmo); [exact HJ| | |].
@@ -504,7 +507,7 @@ Proof.
           cm x = set_input (cm s) rest /\ oref x = oref s /\ eref x = eref s /\ outv x = outv s /\ errv x = errv s /\ limit x = limit s) as Hf.
   { intros x Hx. rewrite Hd in Hx. unfold data in Hx. repeat split; congruence. }
   destruct (Hf _ eq_refl) as [F1 [F2 [F3 [F4 [F5 F6]]]]].
-  destruct HB as [B1 B2 B3 B4 B5 B6 B7 B8 B9 B10 B11 B12 B13 B14 B15].
+  destruct HB as [B1 B2 B3 B4 B5 B6 B7 B8 B9 B10 B11 B12 B13 B14 B15 B16 B17].
   destruct HR as [_ HRp]. unfold ready_pc in HRp. fold s in HRp. rewrite P in HRp. destruct HRp as [Ro Re].
   constructor; cbn [with_l gl ga gw].
   - eapply step_J. exact HJ.
@@ -515,6 +518,8 @@ Proof.
   - constructor; rewrite ?F1, ?F2, ?F3, ?P1, ?P2, ?P3, ?Q1, ?Q2, ?Q3, ?W4, ?W5; cbn [set_input c_in c_out c_err]; auto.
     + apply pipe_ok_push; [exact B6|]. pose proof (firstn_le_length m b). destruct Hfree as [Hf1|Hf1]; [lia|rewrite Hf1, firstn_nil; cbn [length]; lia].
     + intros l Hl. unfold total. rewrite F4, F5. apply B15. rewrite <- F6. exact Hl.
+    + intros Hx. congruence.
+    + intros Hp He. rewrite W7 in He. destruct (B17 Hp He) as [_ Hx]. rewrite (B11 Hp) in Hx. congruence.
   - destruct HC as [C1 C2 C3 C4 C5].
     constructor; cbn [with_l gl ga gw gdout gderr ginput0]; rewrite ?F1, ?F4, ?F5, ?P1, ?P2, ?P3, ?Q1, ?Q2, ?Q3, ?W1, ?W2, ?W3; auto.
     intros Hp. cbn [set_input c_input push buf]. rewrite <- (C3 Hp). fold w s.
@@ -536,13 +541,14 @@ Proof.
   assert (cm (fst (step s RDone)) = closed_in (cm s) /\ oref (fst (step s RDone)) = oref s /\ eref (fst (step s RDone)) = eref s
           /\ outv (fst (step s RDone)) = outv s /\ errv (fst (step s RDone)) = errv s /\ limit (fst (step s RDone)) = limit s)
     as [F1 [F2 [F3 [F4 [F5 F6]]]]] by (unfold data in Hd; repeat split; congruence).
-  destruct HB as [B1 B2 B3 B4 B5 B6 B7 B8 B9 B10 B11 B12 B13 B14 B15].
+  destruct HB as [B1 B2 B3 B4 B5 B6 B7 B8 B9 B10 B11 B12 B13 B14 B15 B16 B17].
   destruct HR as [_ HRp]. unfold ready_pc in HRp. fold s in HRp. rewrite P in HRp. destruct HRp as [Ro Re].
   constructor; cbn [with_l gl ga gw].
   - eapply step_J. exact HJ.
   - unfold step. fold s. rewrite P. apply cont_out_ready; cbn [set_cm oref eref]; wsimpl; auto.
   - constructor; rewrite ?F1, ?F2, ?F3; cbn [closed_in c_in c_out c_err]; wsimpl; auto.
-    intros l Hl. unfold total. rewrite F4, F5. apply B15. rewrite <- F6. exact Hl.
+    + intros l Hl. unfold total. rewrite F4, F5. apply B15. rewrite <- F6. exact Hl.
+    + intros Hp He. destruct (B17 Hp He) as [Hx _]. auto.
   - destruct HC as [C1 C2 C3 C4 C5].
     constructor; cbn [with_l gl ga gw gdout gderr ginput0]; rewrite ?F1, ?F4, ?F5; cbn [closed_in c_input]; wsimpl; auto.
     intros Hp. rewrite <- (C3 Hp). fold s w. rewrite Hin. reflexivity.
@@ -570,7 +576,7 @@ Proof.
   pose proof HJ as HJ'. cbn [J] in HJ'. destruct HJ' as [[re P] [Ho Hrs]].
   assert (SOut <> SIn) as Hne by discriminate.
   destruct HR as [_ HRp]. unfold ready_pc in HRp. fold s in HRp. rewrite P in HRp.
-  destruct HB as [B1 B2 B3 B4 B5 B6 B7 B8 B9 B10 B11 B12 B13 B14 B15].
+  destruct HB as [B1 B2 B3 B4 B5 B6 B7 B8 B9 B10 B11 B12 B13 B14 B15 B16 B17].
   destruct HC as [C1 C2 C3 C4 C5]. change (gw g) with w in C1, C2, C3, C4, C5. change (gl g) with s in C1, C2, C3, C4, C5.
   destruct (k_read_spec _ _ _ _ _ _ Hk Hne (read_size_pos _ _ Hrs)) as [[-> [-> [Hbuf Hwr]]]|[m [-> [Hm [Hmn Hw]]]]]; cbn zeta in *.
   - (* end of file *)
@@ -601,6 +607,7 @@ Proof.
     + constructor; rewrite ?F1, ?F2, ?F3, ?P1, ?P2, ?P3, ?Q1, ?Q2, ?Q3, ?W4, ?W5; wsimpl; auto.
       all: try (apply pipe_ok_pop; exact B7).
       all: try (intros Hp Hof; congruence).
+      all: try (rewrite W7; exact B17).
       intros l Hl. rewrite (total_app_out s b _ F4 F5). rewrite F6 in Hl.
         pose proof (read_size_bound s n Hrs l Hl). lia.
     + constructor; cbn [with_l gl ga gw gdout gderr ginput0]; rewrite ?F1, ?F4, ?F5, ?P1, ?P2, ?P3, ?Q1, ?Q2, ?Q3, ?W1, ?W2, ?W3; wsimpl; auto.
@@ -616,7 +623,7 @@ Proof.
   set (s := gl g) in *. set (w := gw g) in *.
   pose proof HJ as HJ'. cbn [J] in HJ'. destruct HJ' as [P [He Hrs]].
   assert (SErr <> SIn) as Hne by discriminate.
-  destruct HB as [B1 B2 B3 B4 B5 B6 B7 B8 B9 B10 B11 B12 B13 B14 B15].
+  destruct HB as [B1 B2 B3 B4 B5 B6 B7 B8 B9 B10 B11 B12 B13 B14 B15 B16 B17].
   destruct HC as [C1 C2 C3 C4 C5]. change (gw g) with w in C1, C2, C3, C4, C5. change (gl g) with s in C1, C2, C3, C4, C5.
   destruct (k_read_spec _ _ _ _ _ _ Hk Hne (read_size_pos _ _ Hrs)) as [[-> [-> [Hbuf Hwr]]]|[m [-> [Hm [Hmn Hw]]]]]; cbn zeta in *.
   - pose proof (step_readerr_data s n [] HJ) as Hd.
@@ -644,6 +651,7 @@ Proof.
     + constructor; rewrite ?F1, ?F2, ?F3, ?P1, ?P2, ?P3, ?Q1, ?Q2, ?Q3, ?W4, ?W5; wsimpl; auto.
       all: try (apply pipe_ok_pop; exact B8).
       all: try (intros Hp Hof; congruence).
+      all: try (rewrite W7; exact B17).
       intros l Hl. rewrite (total_app_err s b _ F4 F5). rewrite F6 in Hl.
         pose proof (read_size_bound s n Hrs l Hl). lia.
     + constructor; cbn [with_l gl ga gw gdout gderr ginput0]; rewrite ?F1, ?F4, ?F5, ?P1, ?P2, ?P3, ?Q1, ?Q2, ?Q3, ?W1, ?W2, ?W3; wsimpl; auto.
@@ -695,6 +703,7 @@ Proof.
     + intros Hp1 Hp2. congruence.
     + intros Hp1 Hp2. congruence.
     + intros l Hl. unfold total. rewrite F4, F5. cbn. lia.
+    + intros ->. reflexivity.
   - constructor; cbn [gl ga gw gdout gderr ginput0]; rewrite ?F1, ?F4, ?F5; cbn; auto; try (intros ->; reflexivity).
 Qed.
 
